@@ -3,8 +3,8 @@
 Hooks: `visit_assignment`, `visit_local_assignment` → `lint_assignment(lhs count, rhs)`.
 -/
 import Selene.Lints.TraverseB
-namespace Selene.Lints.UnbalancedAssignments
-open Selene.Lua Selene.Lints
+namespace Selene.LintsB.UnbalancedAssignments
+open Selene.Lua Selene.LintsB
 
 /-- `expression_is_call` -/
 def exprIsCall : Expr → Bool
@@ -83,4 +83,4 @@ def parenthesisedNil : Expr → Bool
   | .paren _ e => Doc.denotesNil e
   | _ => false
 
-end Selene.Lints.UnbalancedAssignments
+end Selene.LintsB.UnbalancedAssignments
